@@ -1,6 +1,75 @@
 package main
 
-// pinnedFailed replays the pinned witness of the failed-statement member of F24.
-func pinnedFailed() (bool, string, any) {
-	return false, "", nil
+import (
+	"fmt"
+	"sort"
+	"strings"
+
+	"verif/harness/core"
+	"verif/harness/g8blib"
+)
+
+// pinnedPKOrder replays the pinned witness of the known class "ordered scan through the PRIMARY KEY
+// index of a multi-partition table is not ordered": three single-row inserts into a 3-partition table
+// with PRIMARY KEY (a,id), then SELECT … ORDER BY a, which the plan serves from the key index
+// without a Sort.
+func pinnedPKOrder(r *core.Run) {
+	e := core.NewEng("d")
+	defer e.Close()
+	s := e.NewSess()
+	t := g8blib.StdTable("t", "aid", 3, nil)
+	t.Create(s, "")
+	script := []string{
+		"INSERT INTO t (id, a, b, c, s) VALUES (19, 2, 1, 2, NULL)",
+		"INSERT INTO t (id, a, b, c, s) VALUES (24, 0, NULL, 1, 'a')",
+		"INSERT INTO t (id, a, b, c, s) VALUES (21, 2, 14, NULL, 'Ab')",
+		"INSERT INTO t (id, a, b, c, s) VALUES (5, 1, 14, NULL, 'Ab')",
+		"INSERT INTO t (id, a, b, c, s) VALUES (7, 3, 1, NULL, 'b')",
+		"INSERT INTO t (id, a, b, c, s) VALUES (8, 4, 1, NULL, 'b')",
+	}
+	for _, q := range script {
+		s.MustExec(q)
+	}
+	q := "SELECT a, id FROM t ORDER BY a"
+	res := s.Exec(q)
+	var got []string
+	for _, row := range res.Rows {
+		got = append(got, core.Canon(row[0]))
+	}
+	want := append([]string{}, got...)
+	sort.Slice(want, func(i, j int) bool { return g8blib.CmpVal(false, want[i], want[j]) < 0 })
+	plan := s.Plan(q)
+	still := !res.Failed() && !core.SameStrings(got, want) && !strings.Contains(plan, "Sort")
+	r.Pinned(sigPKOrder, fmt.Sprintf("3-partition table (memory.NewPartitionedTable), PRIMARY KEY (a,id): %s returns a = %v (plan: IndexedTableAccess on [t.a,t.id], no Sort)", q, got), still,
+		map[string]any{"create": t.CreateSQL("t", true), "partitions": 3, "script": script, "query": q, "a_sequence": got, "plan": plan})
+	r.Eval(1)
+}
+
+// pinnedUnbuilt replays the pinned witness of the known class "a CREATE UNIQUE INDEX over a prefix
+// column that fails during the build inside a transaction leaves a registered, empty index".
+func pinnedUnbuilt(r *core.Run) {
+	e := core.NewEng("d")
+	defer e.Close()
+	s := e.NewSess()
+	script := []string{
+		"CREATE TABLE t (id INT PRIMARY KEY, s VARCHAR(12))",
+		"INSERT INTO t VALUES (1,'abcd'),(2,'abce'),(3,'x')",
+		"BEGIN",
+	}
+	for _, q := range script {
+		s.MustExec(q)
+	}
+	cr := s.Exec("CREATE UNIQUE INDEX us ON t (s(3))")
+	s.Exec("COMMIT")
+	viaIndex := core.SortedRows(s.Exec("SELECT id FROM t WHERE s = 'x'").Rows)
+	var viaScan []string
+	for _, row := range s.Exec("SELECT id, (s = 'x') IS TRUE FROM t").Rows {
+		if core.Canon(row[1]) == "1" {
+			viaScan = append(viaScan, core.Canon(row[0]))
+		}
+	}
+	still := cr.Failed() && !core.SameStrings(viaIndex, viaScan)
+	r.Pinned(sigUnbuilt, fmt.Sprintf("BEGIN; CREATE UNIQUE INDEX us ON t (s(3)) fails (1062, 'abcd'/'abce'); COMMIT; SELECT id FROM t WHERE s='x' -> %v via index us, %v via scan", viaIndex, viaScan), still,
+		map[string]any{"script": append(script, "CREATE UNIQUE INDEX us ON t (s(3))  -- fails with 1062", "COMMIT"), "via_index": viaIndex, "via_scan": viaScan})
+	r.Eval(1)
 }
